@@ -38,7 +38,18 @@ def ref_builtin(fn, args, kwargs):
     if fn == "<builtin>elementwise_abs":
         return np.abs(one())
     if fn == "<builtin>dot_product":
-        return np.vdot(args[0], args[1])
+        vals = dict(zip(["x", "y"], args))
+        vals.update(kwargs)
+        if sorted(vals) != ["x", "y"]:
+            raise IllDefined("builtin-args")
+        return np.vdot(vals["x"], vals["y"])
+    if fn == "<builtin>transpose":
+        vals = dict(zip(["a", "a_cols"], args))
+        vals.update(kwargs)
+        if sorted(vals) != ["a", "a_cols"]:
+            raise IllDefined("builtin-args")
+        a_mat = np.asarray(vals["a"]).reshape(-1, int(vals["a_cols"]), order="F")
+        return np.transpose(a_mat).reshape(-1, order="F")
     if fn == "<builtin>matmul":
         names = ["a", "b", "a_cols", "b_cols"]
         vals = dict(zip(names, args))
